@@ -184,7 +184,12 @@ def stepE (s : World) : Cmd → World × List Ev
   | .qclear =>
     match s.q, s.blocked with
     | none, _ => (s, [.skip "no-queue"])
-    | some _, some _ => (s, [.skip "writer-blocked"])
+    | some q, some m =>
+      -- `async_queue_clear` sets `not_full` (Gen.C19.clearSignalsNotFull): the writer asleep on the full queue wakes
+      -- up, finds room and pushes its message
+      if clearSignals = true ∧ (q.clear.enqueue m).2 = .ok then
+        ({ s with q := some (q.clear.enqueue m).1, blocked := none }, [.qclear, .unblocked m.p m.v])
+      else ({ s with q := some q.clear }, [.qclear])
     | some q, none => ({ s with q := some q.clear }, [.qclear])
   | .wnew w mode =>
     match s.getW w with
